@@ -27,6 +27,7 @@ func init() {
 			"(R13.5) the serialised bytes handed to the cache live in memory allocated by that call (not pooled/shared). NOT decided: byte-equality of two compilations, durability of the directory entry after rename.",
 		Assumptions: []string{"POSIX rename(2) atomically replaces the destination", "os.CreateTemp yields a name no other writer uses"},
 		Rules: []core.Rule{
+			{ID: "R13.6", Template: "T-ORDER", Text: "a compiled module is entered into the in-memory map only when it is complete (genuine defect found and fixed: cache hits published before the entry preambles were built)", Min: 2},
 			{ID: "R13.1", Template: "T-TYPESTATE", Text: "Add: unique temp → copy → sync → close → rename, errors checked, temp removed on error, no other creator of final names", Min: 7},
 			{ID: "R13.2", Template: "T-MUSTPASS", Text: "load: every read checked (error and length), magic/version first, executable installed only after the CRC test, stale entries deleted, errors are misses", Min: 5},
 			{ID: "R13.3", Template: "T-SIBLING", Text: "serialiser and deserialiser agree on the field sequence", Min: 1},
@@ -35,11 +36,13 @@ func init() {
 		},
 		Run: runC13,
 		Controls: []core.Control{
+			{Name: "cache-hit-published-before-preambles", File: "internal/engine/wazevo/engine_cache.go", Old: "\t\tssaBuilder := ssa.NewBuilder()\n\t\tmachine := newMachine()\n", New: "\t\tif err = e.addCompiledModuleToMemory(module, cm); err != nil {\n\t\t\treturn nil, false, err\n\t\t}\n\t\tssaBuilder := ssa.NewBuilder()\n\t\tmachine := newMachine()\n", Rule: "R13.6", Substr: "getCompiledModule"},
 			{Name: "rename-before-sync", File: "internal/filecache/file_cache.go", Old: "\tif err = file.Sync(); err != nil {\n\t\treturn\n\t}\n\tif err = file.Close(); err != nil {\n\t\treturn\n\t}\n\terr = os.Rename(file.Name(), path)\n\treturn", New: "\tif err = os.Rename(file.Name(), path); err != nil {\n\t\treturn\n\t}\n\tif err = file.Sync(); err != nil {\n\t\treturn\n\t}\n\terr = file.Close()\n\treturn", Rule: "R13.1", Substr: "order"},
 			{Name: "sync-error-ignored", File: "internal/filecache/file_cache.go", Old: "\tif err = file.Sync(); err != nil {\n\t\treturn\n\t}\n", New: "\t_ = file.Sync()\n", Rule: "R13.1", Substr: "Sync"},
 			{Name: "fixed-temp-name", File: "internal/filecache/file_cache.go", Old: "file, err := os.CreateTemp(dirPath, fileName+\".*.tmp\")", New: "_ = dirPath\n\tfile, err := os.OpenFile(path+fileName[:0]+\".tmp\", os.O_WRONLY|os.O_CREATE|os.O_TRUNC, 0o600)", Rule: "R13.1", Substr: "temp"},
 			{Name: "no-sync", File: "internal/filecache/file_cache.go", Old: "\tif err = file.Sync(); err != nil {\n\t\treturn\n\t}\n", New: "", Rule: "R13.1", Substr: "Sync"},
-			{Name: "executable-before-crc", File: "internal/engine/wazevo/engine_cache.go", Old: "\t\texpected := crc32.Checksum(executable, crc)\n", New: "\t\tcm.executable = executable\n\t\texpected := crc32.Checksum(executable, crc)\n", Rule: "R13.2", Substr: "CRC"},
+			{Name: "executable-before-crc", File: "internal/engine/wazevo/engine_cache.go", Old: "\texpected := crc32.Checksum(executable, crc)\n", New: "\tcm.executable = executable\n\texpected := crc32.Checksum(executable, crc)\n", Rule: "R13.2", Substr: "CRC"},
+			{Name: "checksum-read-only-with-code", File: "internal/engine/wazevo/engine_cache.go", Old: "\tif _, err = io.ReadFull(reader, eightBytes[:4]); err != nil {\n\t\treturn nil, false, fmt.Errorf(\"compilationcache: could not read checksum: %v\", err)\n\t} else if checksum := binary.LittleEndian.Uint32(eightBytes[:4]); expected != checksum {\n\t\treturn nil, false, fmt.Errorf(\"compilationcache: checksum mismatch (expected %d, got %d)\", expected, checksum)\n\t}\n", New: "\tif executableLen > 0 {\n\tif _, err = io.ReadFull(reader, eightBytes[:4]); err != nil {\n\t\treturn nil, false, fmt.Errorf(\"compilationcache: could not read checksum: %v\", err)\n\t} else if checksum := binary.LittleEndian.Uint32(eightBytes[:4]); expected != checksum {\n\t\treturn nil, false, fmt.Errorf(\"compilationcache: checksum mismatch (expected %d, got %d)\", expected, checksum)\n\t}\n\t}\n", Rule: "R13.3", Substr: "layout"},
 			{Name: "short-read-accepted", File: "internal/engine/wazevo/engine_cache.go", Old: "\t} else if n < 8 { // more strict than reader.Read\n\t\treturn 0, io.EOF\n\t}\n", New: "\t}\n\t_ = n\n", Rule: "R13.2", Substr: "length"},
 			{Name: "stale-not-deleted", File: "internal/engine/wazevo/engine_cache.go", Old: "\t\treturn nil, false, e.fileCache.Delete(fileCacheKey(module))", New: "\t\treturn nil, false, nil", Rule: "R13.2", Substr: "stale"},
 			{Name: "layout-width-mismatch", File: "internal/engine/wazevo/engine_cache.go", Old: "\t// The length of code segment (8 bytes).\n\tbuf.Write(u64.LeBytes(uint64(len(cm.executable))))", New: "\t// The length of code segment.\n\tbuf.Write(u32.LeBytes(uint32(len(cm.executable))))", Rule: "R13.3", Substr: "layout"},
@@ -61,6 +64,7 @@ func extCallee(info *types.Info, call *ast.CallExpr) (pkg, recv, name string) {
 }
 
 func runC13(c *core.Ctx) {
+	checkPublishAfterComplete(c)
 	checkCacheAdd(c)
 	checkCacheLoad(c)
 	checkCacheLayout(c)
@@ -711,9 +715,11 @@ func checkCacheLayout(c *core.Ctx) {
 	ws, rs := norm(w), norm(r)
 	// the writer emits the presence byte inside both branches; the reader reads it once before the optional part
 	ws = strings.ReplaceAll(ws, "opt{ u8 u64 loop{ u64 u64 } } else{ u8 }", "u8 opt{ u64 loop{ u64 u64 } }")
-	// the reader's executable section (blob, checksum) is conditional on a non-zero length
-	rs = strings.ReplaceAll(rs, "opt{ blob u32 }", "blob u32")
-	rs = strings.ReplaceAll(rs, "opt{ blob opt{ u32 } }", "blob u32")
+	// the reader only reads the executable when its length is not zero: a blob of length zero is nothing, so a conditional
+	// blob equals an unconditional one. (The checksum behind it is NOT optional: the writer always emits it; an earlier
+	// version of this rule also accepted `opt{ blob u32 }`, which hid a genuine defect – truncated entries of modules
+	// without code were accepted.)
+	rs = strings.ReplaceAll(rs, "opt{ blob }", "blob")
 	c.Check(ws == rs, "R13.3", "layout: serialiser = deserialiser field sequence", ser.Pos(), "both sides: "+ws, "the serialiser writes `"+ws+"` but the deserialiser reads `"+rs+"`: entries written by this version are misread (or truncated entries accepted)")
 }
 
